@@ -5,16 +5,33 @@ import DryocVerif.Proofs.Curve
 import DryocVerif.Proofs.GenCurve
 import DryocVerif.Proofs.KdfExtra
 import DryocVerif.Model.KeyForms
+import DryocVerif.Model.ObjectView
+import DryocVerif.Proofs.KdfObject
 /-
-C12 — `crypto_kdf_derive_from_key` (/repo/src/classic/crypto_kdf.rs).
+C12 — `crypto_kdf_derive_from_key` (/repo/src/classic/crypto_kdf.rs) and `Kdf::derive_subkey` (/repo/src/kdf.rs).
 
-* the length check: exactly the sub-key lengths outside 16..=64 are refused, nothing panics;
+* the length check: exactly the sub-key lengths outside 16..=64 are refused.  "Every length 16..=64" is the
+  CLASSIC function only: the object API (`Kdf::derive_subkey::<Subkey: NewByteArray<32>>`, `derive_subkey_to_vec`)
+  always derives a 32-byte sub-key;
+* "nothing panics" (`kdf_never_panics`, `kdfDeriveImpl_err_iff`) is about TYPED containers (`&[u8; 8]` context,
+  `&[u8; 32]` key; `StackByteArray`, `HeapByteArray`, `Locked<…>`).  The object API reads `self.context.as_array()`
+  and `self.main_key.as_array()`; with `Vec<u8>` / `&[u8]` / `[u8]` containers (`as_array` asserts `len ≥ N`,
+  types.rs) a context shorter than 8 or a key shorter than 32 bytes PANICS and longer ones are viewed through their
+  first 8 / 32 bytes: `kdfObjDerive_cases`; on exact lengths it is the classic function at length 32
+  (`kdfObjDerive_exact`);
 * the derivation is libsodium's construction: keyed BLAKE2b with
   salt = LE64(subkey_id) ‖ 0⁸ and personalisation = ctx ‖ 0⁸, empty message;
-* domain separation: the BLAKE2b parameter block (the only place where the sub-key
-  length, the sub-key id and the context enter the hash) is injective in
-  (length, id, context) over the admissible range, and so is the initial chaining value
-  computed from it (`kdf_initState_injective`);
+* "different ids, contexts or lengths give different sub-keys": what is PROVED is (a) sub-keys of different
+  LENGTHS are trivially different (`kdf_length`), and (b) INJECTIVITY of the input encoding — the BLAKE2b parameter
+  block (the only place where the sub-key length, the sub-key id and the context enter the hash) is injective in
+  (length, id mod 2^64, context) over the admissible range, and so is the initial chaining value computed from
+  it (`kdf_initState_injective`) — together with the explicit REDUCTION `kdf_eq_imp_blake2b_collision`: two
+  derivations from the same key with different (length, id mod 2^64, context) and EQUAL sub-keys exhibit two
+  DIFFERENT initial chaining values `h₀ ≠ h₀'` whose keyed final compressions
+  `F(h₀, key ‖ 0⁹⁶, 128, last)` agree on their first `len` bytes.  Distinctness of the OUTPUTS themselves (domain
+  separation proper) is therefore (truncated) collision resistance of the BLAKE2b compression function — a
+  cryptographic assumption, not a theorem here; on concrete inputs it is checked per batch by the differential run
+  only (the `kdf` rows: distinct ids / contexts / lengths give distinct outputs, equal to the crate's);
 * the derivation through dryoc's OWN BLAKE2b (`Model.KeyForms.kdfDeriveImpl`: `State::init(..)?`
   then `finalize`, both with their `Result`) equals the abstract model instantiated with the
   specification's BLAKE2b, for every input with a 32-byte key and an 8-byte context
@@ -28,6 +45,11 @@ theorem kdf_err_iff (P : Model.Curve.Prims) (len id : Nat) (ctx key : Bytes) :
     Model.Curve.kdfDerive P len id ctx key = .err ↔ len < 16 ∨ 64 < len := by
   unfold Model.Curve.kdfDerive; split <;> simp_all
 
+/-- Corollary of totalisation: the definition `kdfDerive` has no panic branch in reach (an `if` between `.err`
+and `.ok`); it models the classic function on TYPED arguments (`&[u8; 8]`, `&[u8; 32]`).  The code-shaped
+statements that carry content are `kdfDeriveImpl_err_iff` (the statement-level model with its two
+`copy_from_slice` and dryoc's BLAKE2b `init` / `finalize`: no panic for an 8-byte context and a 32-byte key) and,
+for the object API on `Vec<u8>` containers, `kdfObjDerive_cases` (panic iff context < 8 or key < 32 bytes). -/
 theorem kdf_never_panics (P : Prims) (len id : Nat) (ctx key : Bytes) :
     kdfDerive P len id ctx key ≠ .panic := by
   unfold kdfDerive; split <;> simp
@@ -132,6 +154,125 @@ example : Spec.Blake2b.initState 32 32 (toLE 8 0 ++ zeros 8) (zeros 8 ++ zeros 8
     Spec.Blake2b.initState 32 32 (toLE 8 (2 ^ 64) ++ zeros 8) (zeros 8 ++ zeros 8) := by
   have : toLE 8 (2 ^ 64) = toLE 8 0 := by decide
   rw [this]
+
+/-! ### from injectivity of the encoding to distinct outputs: the reduction, made explicit -/
+
+/-- the derived sub-key has the requested length (abstract model at the spec instantiation; 32-byte key) -/
+theorem kdf_length (len id : Nat) (ctx key out : Bytes) (hk : key.length = 32)
+    (h : kdfDerive specPrims len id ctx key = .ok out) : out.length = len := by
+  unfold kdfDerive at h
+  split at h
+  · cases h
+  · rename_i hl
+    cases h
+    exact Proofs.KdfExtra.hashSP_key32_length len key _ _ hk (by omega)
+
+/-- the KDF output is the first `len` bytes of ONE keyed final compression of the initial chaining value -/
+theorem kdf_eq_compress (len id : Nat) (ctx key : Bytes) (hl : 16 ≤ len ∧ len ≤ 64) (hk : key.length = 32) :
+    kdfDerive specPrims len id ctx key =
+      .ok ((Spec.Blake2b.bytesOfWords (Spec.Blake2b.compress
+        (Spec.Blake2b.initState len 32 (toLE 8 id ++ zeros 8) (ctx ++ zeros 8))
+        (Spec.Blake2b.fit Spec.Blake2b.blockBytes key) Spec.Blake2b.blockBytes true)).take len) := by
+  rw [kdf_eq_spec len id ctx key hl.1 hl.2, Proofs.KdfExtra.hashSP_key32 len key _ _ hk]
+
+/-- **The reduction behind "different ids, contexts or lengths give different sub-keys".**  Two derivations from
+the same 32-byte key whose parameters differ — `(len, id mod 2^64, ctx) ≠ (len', id' mod 2^64, ctx')` — and whose
+outputs are EQUAL would give: equal lengths, two DIFFERENT BLAKE2b initial chaining values `h₀ ≠ h₀'`
+(`kdf_initState_injective`), and a `len`-byte collision of the keyed final compression
+`h ↦ F(h, key ‖ 0⁹⁶, t = 128, last)` on them.  So distinctness of sub-keys is exactly (truncated) collision
+resistance of BLAKE2b's compression function in its chaining input — assumed, not proved; injectivity of the
+encoding is the part that is a theorem. -/
+theorem kdf_eq_imp_blake2b_collision (len len' id id' : Nat) (ctx ctx' key : Bytes)
+    (hl : 16 ≤ len ∧ len ≤ 64) (hl' : 16 ≤ len' ∧ len' ≤ 64) (hk : key.length = 32)
+    (hc : ctx.length = 8) (hc' : ctx'.length = 8)
+    (hne : ¬ (len = len' ∧ id % 2 ^ 64 = id' % 2 ^ 64 ∧ ctx = ctx'))
+    (h : kdfDerive specPrims len id ctx key = kdfDerive specPrims len' id' ctx' key) :
+    len = len' ∧
+    Spec.Blake2b.initState len 32 (toLE 8 id ++ zeros 8) (ctx ++ zeros 8) ≠
+      Spec.Blake2b.initState len 32 (toLE 8 id' ++ zeros 8) (ctx' ++ zeros 8) ∧
+    (Spec.Blake2b.bytesOfWords (Spec.Blake2b.compress
+        (Spec.Blake2b.initState len 32 (toLE 8 id ++ zeros 8) (ctx ++ zeros 8))
+        (Spec.Blake2b.fit Spec.Blake2b.blockBytes key) Spec.Blake2b.blockBytes true)).take len =
+    (Spec.Blake2b.bytesOfWords (Spec.Blake2b.compress
+        (Spec.Blake2b.initState len 32 (toLE 8 id' ++ zeros 8) (ctx' ++ zeros 8))
+        (Spec.Blake2b.fit Spec.Blake2b.blockBytes key) Spec.Blake2b.blockBytes true)).take len := by
+  have e1 := kdf_eq_compress len id ctx key hl hk
+  have e2 := kdf_eq_compress len' id' ctx' key hl' hk
+  have hlen : len = len' := by
+    have a := kdf_length len id ctx key _ hk e1
+    have b := kdf_length len' id' ctx' key _ hk e2
+    rw [e1, e2] at h
+    rw [Outcome.ok.inj h] at a
+    omega
+  subst hlen
+  refine ⟨rfl, ?_, ?_⟩
+  · intro he
+    exact hne (kdf_initState_injective len len id id' ctx ctx' hl hl' hc hc' he)
+  · rw [e1, e2] at h
+    exact Outcome.ok.inj h
+
+/-- sub-keys of different admissible lengths are different (they have different lengths) -/
+theorem kdf_ne_of_length_ne (len len' id id' : Nat) (ctx ctx' key : Bytes)
+    (hl : 16 ≤ len ∧ len ≤ 64) (hk : key.length = 32) (hne : len ≠ len') :
+    kdfDerive specPrims len id ctx key ≠ kdfDerive specPrims len' id' ctx' key := by
+  intro h
+  obtain ⟨out, ho⟩ : ∃ out, kdfDerive specPrims len id ctx key = .ok out := ⟨_, kdf_eq_spec len id ctx key hl.1 hl.2⟩
+  have a := kdf_length len id ctx key out hk ho
+  rw [h] at ho
+  have b := kdf_length len' id' ctx' key out hk ho
+  omega
+
+/-- non-vacuity of `kdf_eq_imp_blake2b_collision`'s hypotheses other than `h` (which is the collision assumed
+away): lengths 32 / 32, ids 0 / 1, context 0⁸, key 0³² satisfy them -/
+example : (16 ≤ 32 ∧ 32 ≤ 64) ∧ (zeros 32).length = 32 ∧ (zeros 8).length = 8 ∧
+    ¬ ((32 : Nat) = 32 ∧ 0 % 2 ^ 64 = 1 % 2 ^ 64 ∧ zeros 8 = zeros 8) := by decide
+
+/-- … and on that instance the outputs DO differ (kernel evaluation of the two derivations: an instance of the
+assumed collision resistance, not a proof of it) -/
+example : kdfDerive specPrims 32 0 (zeros 8) (zeros 32) ≠ kdfDerive specPrims 32 1 (zeros 8) (zeros 32) := by
+  decide +kernel
+
+/-! ### the object API: `Kdf::derive_subkey`, `Kdf::derive_subkey_to_vec` (kdf.rs) -/
+
+open Model.ObjectView in
+/-- `Kdf::derive_subkey::<Subkey>(subkey_id)` with variable-length key / context containers (`Vec<u8>`, …):
+PANICS iff the context container holds fewer than 8 or the main-key container fewer than 32 bytes
+(`self.context.as_array()`, `self.main_key.as_array()`); otherwise `Ok` with the 32-byte sub-key
+(`Subkey: NewByteArray<32>` — the object API never derives another length) computed from the FIRST 8 / 32 bytes,
+through dryoc's own BLAKE2b (`kdfDeriveImpl`), equal to libsodium's value; never `Err` -/
+theorem kdfObjDerive_cases (id : Nat) (ctx key : Bytes) :
+    (kdfObjDerive id ctx key = .panic ↔ ctx.length < 8 ∨ key.length < 32) ∧
+    (8 ≤ ctx.length → 32 ≤ key.length →
+      kdfObjDerive id ctx key =
+        .ok (Spec.Blake2b.hashSP 32 (key.take 32) (toLE 8 id ++ zeros 8) (ctx.take 8 ++ zeros 8) [])) ∧
+    kdfObjDerive id ctx key ≠ .err :=
+  Proofs.KdfObject.kdfObjDerive_cases id ctx key
+
+open Model.ObjectView in
+/-- in terms of the code path: the prefix view, then the classic function's statement-level model at length 32 -/
+theorem kdfObjDerive_eq (id : Nat) (ctx key : Bytes) :
+    kdfObjDerive id ctx key =
+      if ctx.length < 8 ∨ key.length < 32 then .panic
+      else Model.KeyForms.kdfDeriveImpl 32 id (ctx.take 8) (key.take 32) :=
+  Proofs.KdfObject.kdfObjDerive_eq id ctx key
+
+open Model.ObjectView in
+/-- exact lengths (the typed containers): the object function is the classic one at sub-key length 32 -/
+theorem kdfObjDerive_exact (id : Nat) (ctx key : Bytes) (hc : ctx.length = 8) (hk : key.length = 32) :
+    kdfObjDerive id ctx key = kdfDerive specPrims 32 id ctx key :=
+  Proofs.KdfObject.kdfObjDerive_exact id ctx key hc hk
+
+open Model.ObjectView in
+/-- witnesses: a 7-byte `Vec` context and a 31-byte `Vec` key panic; a 9-byte context is its 8-byte prefix -/
+example (id : Nat) (b : UInt8) :
+    kdfObjDerive id (zeros 7) (zeros 32) = .panic ∧
+    kdfObjDerive id (zeros 8) (zeros 31) = .panic ∧
+    kdfObjDerive id (zeros 8 ++ [b]) (zeros 32) = kdfObjDerive id (zeros 8) (zeros 32) := by
+  refine ⟨(kdfObjDerive_cases id _ _).1.2 (Or.inl (by decide)),
+    (kdfObjDerive_cases id _ _).1.2 (Or.inr (by decide)), ?_⟩
+  rw [(kdfObjDerive_cases id _ _).2.1 (by simp [zeros]) (by decide),
+    (kdfObjDerive_cases id _ _).2.1 (by decide) (by decide)]
+  rfl
 
 /-! ### the derivation through dryoc's own BLAKE2b -/
 
